@@ -8,7 +8,7 @@ import TensorModel.Ext.Hooks
         `defaultengine_linalg.go` and the package-level functions of `api_arith.go`
         (`Inner`, `MatVecMul`, `MatMul`, `Outer`, `Contract`, `Dot`) and `(*Dense).Trace`;
   * §3  S: textbook sums of products on logical arrays;
-  * §4  known-defect regions (F50, F51, F53, F55, F56, F58; F52, F54, F57 are repaired) and the family record.
+  * §4  known-defect regions (F51, F55, F56, F58; F50, F52, F53, F54, F57 are repaired) and the family record.
 
   Step syntax:  `la <inner|mv|mm|outer|dot|tdot|trace> <fn|meth> $a [$b] [axesA axesB] [opts…]`
   (`tdot` takes the two axis lists; `trace` takes one operand; opts = `reuse=$k`, `incr=$k`, `unsafe`).
@@ -280,11 +280,33 @@ def checkThreeFC (a b p : Dense) : LM Unit := do
   if !floatcmplxTypes.contains b.dt then failE "getFloatDense b"
   if !floatcmplxTypes.contains p.dt then failE "getFloatDense ret"
 
-/-- `StdEng.Inner(a, b)`: `dot(len(A), A, 1, B, 1)` on the two raw windows -/
+/-- the copy `blasOperand` makes of a non-contiguous view: `recycledDense(t.Dtype(), t.Shape().Clone(), …)`,
+    `AsFortran(nil)` when `t` is column-major, `copyDenseIter(retVal, t, nil, nil)` -/
+def blasCopy (st : St) (t : Dense) : Res (St × Dense) :=
+  let (s, d) := newDenseZero st t.dt t.shape
+  let d := if t.ap.o.col then
+      { d with ap := { d.ap with o := { d.ap.o with col := true }, strides := calcStridesCol t.shape } } else d
+  Dense.copyDenseIter s d t
+
+/-- `blasOperand(t)`: the tensor whose storage is handed to BLAS. `t` itself when its data-order flags say
+    contiguous (either order, with or without a pending transpose); for a non-contiguous view a contiguous
+    copy in `t`'s data order (`blasCopy`). -/
+def blasOperand (id : Nat) : LM Nat := do
+  let t ← getObj id
+  if !t.ap.o.nonContig then pure id else
+  let (s, d) ← lift (blasCopy (← getSt) t)
+  putSt s
+  addObj d
+
+/-- `StdEng.Inner(a, b)`: `dot(len(A), A, 1, B, 1)` on the two raw windows (of the operands, or of the
+    contiguous copies of non-contiguous views) -/
 def engInner (aId bId : Nat) : LM Val := do
   let a ← getObj aId
   let b ← getObj bId
   checkTwoFC a b
+  let aId ← blasOperand aId
+  let bId ← blasOperand bId
+  let a ← getObj aId
   -- `ad.Data()` of a rank-0 tensor is not a slice: no arm of the type switch, nil result
   if isScalar a.shape then failE "nil result" else
   let A ← rawOf aId
@@ -297,6 +319,9 @@ def engMatVecMul (aId bId pId : Nat) : LM Unit := do
   let b ← getObj bId
   let p ← getObj pId
   checkThreeFC a b p
+  let aId ← blasOperand aId
+  let bId ← blasOperand bId
+  let a ← getObj aId
   let osh := a.oshape
   let m0 ← lift (idx osh 0 "oshape[0]")
   let n0 ← lift (idx osh 1 "oshape[1]")
@@ -313,6 +338,10 @@ def engMatMul (aId bId pId : Nat) : LM Unit := do
   let b ← getObj bId
   let p ← getObj pId
   checkThreeFC a b p
+  let aId ← blasOperand aId
+  let bId ← blasOperand bId
+  let a ← getObj aId
+  let b ← getObj bId
   let m ← lift (idx a.shape 0 "ad.Shape()[0]")
   let k ← lift (idx a.shape 1 "ad.Shape()[1]")
   let n ← lift (idx b.shape 1 "bd.Shape()[1]")
@@ -351,6 +380,8 @@ def engOuter (aId bId pId : Nat) : LM Unit := do
     reshapeObj aId aShape
   else
     let lda ← lift (idx p.shape 1 "pd.Shape()[1]")
+    let aId ← blasOperand aId
+    let bId ← blasOperand bId
     let x ← rawOf aId
     let y ← rawOf bId
     let A ← rawOf pId
@@ -379,8 +410,8 @@ def denseInner (tId oId : Nat) : LM Val := do
   let o ← getObj oId
   if !floatcmplxTypes.contains t.dt then failE "unsupported dtype"
   if !isVector t.shape || !isVector o.shape then failE "Inner only works when there are two vectors"
-  -- `t.len() != other.DataSize()` (DataSize of a rank-0 tensor is 0; a vector is never rank 0)
-  if t.win.len != o.win.len then failE "shapeMismatch"
+  -- `t.Size() != other.Size()`: the numbers of elements, not the lengths of the storage windows
+  if t.size != o.size then failE "shapeMismatch"
   engInner tId oId
 
 /-- `(*Dense).MatVecMul(other, opts...)` -/
@@ -485,7 +516,7 @@ def dotCore (tmul : Nat → Nat → List Int → List Int → LM Nat) (aId bId :
   | .scalarLeft => mulScalar aId bId false o
   | .scalarRight => mulScalar bId aId true o
   | .inner =>
-    if a.win.len != b.win.len then failE "shapeMismatch"
+    if a.size != b.size then failE "shapeMismatch"
     let v ← engInner aId bId
     let (s, bf) := (← getSt).alloc #[v]
     putSt s
@@ -845,26 +876,6 @@ def stepS (psB psA : PState) (ss : SState) (_ : Nat) (toks : List String) (mres 
 
 /-! ## 4. Known-defect regions -/
 
-/-- the stride with which a vector's entries are laid out (the one axis longer than 1) -/
-def vecStride (t : Dense) : Option Int :=
-  match (t.ap.shape.zip t.ap.strides).filter (fun p => p.1 != 1) with
-  | [(_, s)] => some s
-  | _ => none
-
-/-- F53: a vector operand whose entries are not adjacent in its storage window (stepped slice,
-    column of a matrix) is handed to BLAS with increment 1: `Inner`, `MatVecMul`, `Outer` read
-    the wrong cells (or are refused when the window lengths happen to differ). -/
-def Excl_vecInc (t : Dense) : Bool :=
-  isVector t.ap.shape && decide (t.size > 1) &&
-    (match vecStride t with | some s => s != 1 | none => false)
-
-/-- F50: a matrix operand that is a strided view (its rows are not adjacent: the stride of the
-    leading axis of its storage pattern is not the row length) is handed to BLAS with the leading
-    dimension of a contiguous matrix. -/
-def Excl_ldView (t : Dense) : Bool :=
-  t.oshape.length == 2 && !isVector t.oshape && !isScalarEquiv t.oshape &&
-    t.ostrides != Dense.defaultStrides t.ap.o.col t.oshape
-
 /-- operands of different data order (F51) -/
 def Excl_mixedOrder (ts : List Dense) : Bool :=
   ts.any (·.ap.o.col) && ts.any (fun t => !t.ap.o.col)
@@ -894,21 +905,21 @@ def excl (ps : PState) (toks : List String) : List String × Bool :=
       let po := parseOpts ps c.optToks
       let dest : List Dense := (match po.o.reuse with | some d => [d] | none => []) ++
         (match po.o.incr with | some d => [d] | none => [])
-      let blasOp := ["inner", "mv", "mm", "outer", "dot"].contains c.op
-      let f50 := blasOp && (Excl_ldView a || Excl_ldView b)
-      let f53 := blasOp && (Excl_vecInc a || Excl_vecInc b)
       let f51 := c.op != "trace" && Excl_mixedOrder ([a, b] ++ dest)
       let isTm := c.op == "tdot" || (c.op == "dot" && dotCase a.shape b.shape == .tensor)
       let f58 := ["mv", "mm", "outer", "dot"].contains c.op && Excl_reuseView po.o.reuse
       let f55 := c.op == "dot" && Excl_dotIgnoresDest a b po.o.reuse.isSome po.o.incr.isSome
       let f56 := isTm && Excl_tmulColMajor a b
       let dc := dotCase a.shape b.shape
-      let f32 := c.op == "dot" && (dc == .scalarScalar || dc == .scalarLeft || dc == .scalarRight) &&
-        po.o.incr.isSome && a.win.len == 1 && b.win.len == 1
       let f24 := Excl_shortStrides a || Excl_shortStrides b
-      ((if f50 then ["F50"] else []) ++ (if f51 then ["F51"] else []) ++
-       (if f53 then ["F53"] else []) ++ (if f55 then ["F55"] else []) ++
-       (if f56 then ["F56"] else []) ++ (if f58 then ["F58"] else []) ++ (if f32 then ["F32"] else []) ++ (if f24 then ["F24"] else []), true)
+      -- F39 through `Dot(vector, matrix)`: the transpose is taken on a shallow copy `bT` that shares `b`'s
+      -- storage; when `b` carries a pending transpose that `bT.T()` does not recognise as its own undo (a clone
+      -- keeps the pending transpose but not the axes it was made with) the shared storage is physically
+      -- transposed under `b`
+      let f39 := c.op == "dot" && dc == .vecMat && T_materialises b []
+      ((if f51 then ["F51"] else []) ++ (if f55 then ["F55"] else []) ++
+       (if f56 then ["F56"] else []) ++ (if f58 then ["F58"] else []) ++ (if f24 then ["F24"] else []) ++
+       (if f39 then ["F39"] else []), true)
     | _, _ => ([], false)
 
 end La
